@@ -375,7 +375,7 @@ func (state *RuntimeState) u2fSignResponse(w http.ResponseWriter, r *http.Reques
 				eventNotifier.PublishWebLoginEvent(authData.Username)
 			}
 			_, err = state.updateAuthCookieAuthlevel(w, r,
-				authData.AuthType|AuthTypeU2F)
+				authData.Username, authData.AuthType|AuthTypeU2F)
 			if err != nil {
 				logger.Printf("Auth Cookie NOT found ? %s", err)
 				state.writeFailureResponse(w, r, http.StatusInternalServerError, "Failure updating vip token")
@@ -407,7 +407,7 @@ func (state *RuntimeState) u2fSignResponse(w http.ResponseWriter, r *http.Reques
 				eventNotifier.PublishWebLoginEvent(authData.Username)
 			}
 			_, err = state.updateAuthCookieAuthlevel(w, r,
-				authData.AuthType|AuthTypeU2F)
+				authData.Username, authData.AuthType|AuthTypeU2F)
 			if err != nil {
 				logger.Printf("Auth Cookie NOT found ? %s", err)
 				state.writeFailureResponse(w, r, http.StatusInternalServerError, "Failure updating vip token")
